@@ -143,6 +143,10 @@ def generate(rng):
             if wd and wd[0] in (u'out', u'outn', u'slow') and int(wd[1]) > lim:
                 parts[i] = u'%s %d %s' % (wd[0], lim, wd[2])
         c['cmd'] = u'\n'.join(parts)
+        if len(parts) > 1 and rng.random() < 0.3:
+            # the caller's text may separate lines by CR LF or by a bare CR (pasted text): run_command splits at every
+            # line boundary str.splitlines() knows, the terminal would turn an embedded CR into a line end anyway
+            c['sep'] = rng.choice([u'\r\n', u'\r', u'\r'])
     scn['step_cap'] = 1500000
     scn['extra_init'] = rng.random() < 0.2
     return scn
@@ -313,7 +317,7 @@ def run(scn):
                     w.begin_op(kx + 1)
                     w.note('op', (kx + 1, 'arun_command'))
                     try:
-                        v = await repl.run_command(c['cmd'], async_=True)
+                        v = await repl.run_command(c['cmd'].replace(u'\n', c['sep']) if c.get('sep') else c['cmd'], async_=True)
                         results.append(('ret', v))
                     except (SimHang, HarnessError):
                         raise
@@ -337,7 +341,7 @@ def run(scn):
                 w.begin_op(kx + 1)
                 w.note('op', (kx + 1, 'run_command'))
                 try:
-                    v = repl.run_command(c['cmd'])
+                    v = repl.run_command(c['cmd'].replace(u'\n', c['sep']) if c.get('sep') else c['cmd'])
                     results.append(('ret', v))
                 except SimHang as e:
                     V('C16.hang', 'run_command never returned: %s' % e, k=kx, cmd=c['cmd'][:60])
